@@ -74,6 +74,16 @@ class LGen(kgen.Gen):
         late = r.chance(1, 4)
         self.mode(bu=(1 if late else 7))
         a, b, ring = self.fan_in_order(k, closed, order)
+        if r.chance(1, 2):
+            # a bystander tet on fresh vertices as the LAST cell: an immediate fast deletion of a fan cell then swaps the victim with a
+            # cell that does not contain the axis edge, so only the victim's own edges tell the kernel which fans to re-sort (seeded C09-r3)
+            v0 = self.st().nv
+            self.add_vertices(4)
+            self.add_tet(v0, v0 + 1, v0 + 2, v0 + 3)
+            if not late and r.chance(1, 2):
+                self.do("EnDef 0"); self.do("EnFast 1")
+                fan_cells = [c for c in self.st().live_c()][:-1]
+                if fan_cells: self.do("@DelC %d" % r.pick(fan_cells)); self.query(force=True)
         if r.chance(1, 6): self.self_adjacent_cell()
         if late:
             for ln in r.shuffle(["EnEBU 1", "EnFBU 1"]): self.do(ln)
